@@ -290,8 +290,8 @@ pub fn run_case(case: &Case) -> RunOutput {
 
     if is_async {
         let sched = match case.cfg.mode.as_str() {
-            "lifo" => Sched::Lifo,
-            "rand" => Sched::Rand(Rng::new(case.cfg.sched_seed)),
+            "lifo" | "lifo2" => Sched::Lifo,
+            "rand" | "rand2" => Sched::Rand(Rng::new(case.cfg.sched_seed ^ case.id)),
             "prefix" => Sched::Prefix(case.cfg.prefix.clone(), 0),
             _ => Sched::Fifo,
         };
